@@ -53,6 +53,9 @@ def one(name, tier):
                 if n.endswith("-" + tag):
                     shutil.rmtree(os.path.join(altd, n), ignore_errors=True)
     res["detected"] = any(c["exit"] == 1 and c["violations"] for c in res["checks"].values())
+    meta = json.load(open(os.path.join(d, "meta.json")))
+    meta.setdefault("detection", {})[tier] = {"detected": res["detected"], "checks": res["checks"]}
+    json.dump(meta, open(os.path.join(d, "meta.json"), "w"), indent=1)
     return res
 
 
